@@ -137,7 +137,7 @@ func lateIgnorer(r *vlib.Run, base string, report func(kind string, c dcase)) {
 
 func main() {
 	tsh.Main("C17", "exploration", 12*time.Minute, func(r *vlib.Run) {
-		r.Rule("RunT calls with Params.Deadline 0.4 / 0.7 / 1.2 / 2 / 3 / 5 / 8 s ahead (round-robin) and 1-6 scripts each, mixing foreground commands that block for ever (die on the interrupt), trap the interrupt and exit, ignore the interrupt (must be killed), exit at about the moment the context expires, exit at once but leave a grandchild holding their output pipes across the expiry, scripts that finish early, scripts with SIGINT-terminable background jobs, and scripts blocked in 'wait' for a background job that never ends. Three ways of running them: subtests released as soon as RunT returned (plain), released 20-35% of the distance later (the parent test keeps working; the deadline stays where it is), and under a T that runs subtests one after another (scripts after the first blocked one start with the context already expired). Evaluations = scripts run; distinct non-trivial = distinct (deadline distance, multiset of script kinds) cases containing at least one blocked script.")
+		r.Rule("RunT calls with Params.Deadline 0.4 / 0.7 / 1.2 / 2 / 3 / 5 / 8 s ahead (round-robin) and 1-6 scripts each, mixing foreground commands that block for ever (die on the interrupt), trap the interrupt and exit, ignore the interrupt (must be killed), exit at about the moment the context expires, exit at once but leave a grandchild holding their output pipes across the expiry, block (or finish at once) with 256 KB of terminal input pending that they never read, scripts that finish early, scripts with SIGINT-terminable background jobs, and scripts blocked in 'wait' for a background job that never ends. Three ways of running them: subtests released as soon as RunT returned (plain), released 20-35% of the distance later (the parent test keeps working; the deadline stays where it is), and under a T that runs subtests one after another (scripts after the first blocked one start with the context already expired). Evaluations = scripts run; distinct non-trivial = distinct (deadline distance, multiset of script kinds) cases containing at least one blocked script.")
 		r.Assume("grace = max(100 ms, (deadline - start)/20) as documented in RunT; eps = 20 ms for the difference between the harness' and RunT's reading of the clock; lateness (soft bounds, slack 150 ms) is judged only in cases whose calibration goroutine and calibration helper were never more than 30 ms late, and is a violation only when the same bound is breached, for one deadline distance, in >= 3 quiet cases and >= 80% of the quiet cases exercising it at that distance; a regression that makes cleanup late by less than 150 ms is not detected")
 		base := vlib.Scratch()
 		rng := r.Rand("cases")
@@ -184,7 +184,7 @@ func main() {
 			os.MkdirAll(dir, 0o777)
 			defer os.RemoveAll(dir)
 			n := 1 + crng.Intn(6)
-			kinds := []string{"block", "trapquit", "ignorequit", "exitat", "early", "bgblock", "bgwait", "block", "trapquit", "ignorequit", "orphanpipe"}
+			kinds := []string{"block", "trapquit", "ignorequit", "exitat", "early", "bgblock", "bgwait", "block", "trapquit", "ignorequit", "orphanpipe", "ttyflood", "ttyearly"}
 			var specs []scriptSpec
 			var files []string
 			anyBlocked := false
@@ -194,6 +194,9 @@ func main() {
 				k := kinds[crng.Intn(len(kinds))]
 				if i == 0 && k == "early" && jb.mode != "sequential" {
 					k = "block"
+				}
+				if k == "ttyearly" && (jb.dist < 1200*time.Millisecond || jb.mode == "sequential") {
+					k = "ttyflood"
 				}
 				if k == "early" && jb.dist < 1200*time.Millisecond {
 					k = "block" // an "early" script needs a budget (distance - 2 grace periods) that two process starts fit into even on a loaded machine
@@ -212,7 +215,7 @@ func main() {
 						k = "trapquit"
 					}
 				}
-				if k != "early" {
+				if k != "early" && k != "ttyearly" {
 					anyBlocked = true
 					if firstBlocked < 0 {
 						firstBlocked = i
@@ -276,6 +279,13 @@ func main() {
 					sp.Text = fmt.Sprintf("%sexec vhelper ignorequit %s\n%s", neg, sp.Pid, tail)
 				case "exitat":
 					sp.Text = fmt.Sprintf("exec vhelper exitat %s %d\n", sp.Pid, expiryLo+int64(crng.Intn(40)-20)*int64(time.Millisecond))
+				case "ttyflood":
+					// more terminal input than a pty buffers, for a command that never reads its terminal
+					// and blocks: stopping it at the deadline must also get rid of the pending input
+					sp.Text = fmt.Sprintf("ttyin flood.txt\nexec vhelper block %s\n-- flood.txt --\n%s", sp.Pid, strings.Repeat("0123456789abcdef0123456789abcde\n", 8000))
+				case "ttyearly":
+					// the same input for a command that finishes at once without reading it
+					sp.Text = "ttyin flood.txt\nexec vhelper out early\nstdout early\n-- flood.txt --\n" + strings.Repeat("0123456789abcdef0123456789abcde\n", 8000)
 				case "orphanpipe":
 					// the command's own process exits at once, but a grandchild keeps its output pipes open
 					// until one grace period after the earliest expiry: when the context fires there is
@@ -388,7 +398,7 @@ func main() {
 					return n
 				}
 				switch sp.Kind {
-				case "early":
+				case "early", "ttyearly":
 					if v != "pass" {
 						if sub.EndMono < expiryLo-int64(eps) {
 							mk("early-script-affected-by-deadline", fmt.Sprintf("script %s finishes long before the deadline but was reported as %s, %v before the context could have expired", sp.Name, v, time.Duration(expiryLo-sub.EndMono)), log)
@@ -444,7 +454,7 @@ func main() {
 						softCheckT("kill-early", time.Duration(tq+int64(graceLo)-end), graceLo/2, fmt.Sprintf("case %d %s: ended %v after the recorded interrupt, a grace period is %v", jb.idx, sp.Name, time.Duration(end-tq), graceLo))
 						softCheck("kill-late", time.Duration(end-(tq+int64(graceHi))), fmt.Sprintf("case %d %s: ended %v after interrupt+grace", jb.idx, sp.Name, time.Duration(end-(tq+int64(graceHi)))))
 					}
-				case "block", "bgblock", "bgwait":
+				case "block", "bgblock", "bgwait", "ttyflood":
 					if end < expiryLo-int64(eps) {
 						mk("stopped-too-early", fmt.Sprintf("%s was stopped %v before the deadline; two grace periods are %v", sp.Name, time.Duration(monoDeadline-end), 2*graceHi), log)
 					}
